@@ -2034,6 +2034,122 @@ impl Com {
         out.count("common-pulc");
         out.op(&format!("pulc {p} {bn} {best}"), &format!("r={} {}", self.show_nh(got), self.peer_str(p)));
     }
+
+    // ---- BlockFetcher::fetch ------------------------------------------------------------------
+    //   fetch <peer> <fetch_end> <ibd> <unverified tip> <our total difficulty> <stored-not-valid ids> <received ids>
+    //                                  -> r=<none|-|a,b;c,d> lc=<n/id|none|nopeer> infl=<the peer's ids|nosched> total=<n>
+    //   finsert <peer> <n> <id>        -> <bool> total=<n>      (InflightBlocks::insert, another peer's request)
+    //   frmpeer <peer>                 -> <count> total=<n>     (InflightBlocks::remove_by_peer)
+    fn f_statuses(&self, out: &mut Out) -> (Vec<u64>, Vec<u64>) {
+        use ckb_shared::block_status::BlockStatus;
+        let (mut sv, mut rc) = (vec![], vec![]);
+        for id in 0..self.hdrs.len() as u64 {
+            let st = self.node.shared.get_block_status(&self.hdrs[id as usize].0);
+            let stored = st.contains(BlockStatus::BLOCK_STORED);
+            if stored != self.hdrs[id as usize].3 {
+                out.oracle_fail("fetch-status-of-processed-block", &format!("id {id}: status {st:?}, processed={}", self.hdrs[id as usize].3));
+            }
+            if stored && !st.contains(BlockStatus::BLOCK_VALID) {
+                sv.push(id);
+            }
+            if !stored && st.contains(BlockStatus::BLOCK_RECEIVED) {
+                rc.push(id);
+            }
+        }
+        (sv, rc)
+    }
+    fn f_peer_set(&self, p: u64) -> Option<BTreeSet<u64>> {
+        let t = self.sync.state().read_inflight_blocks();
+        t.inflight_block_by_peer(PeerIndex::new(p as usize)).map(|s| s.iter().map(|b| self.id_of(&b.hash())).collect())
+    }
+    fn f_total(&self) -> usize {
+        self.sync.state().read_inflight_blocks().total_inflight_count()
+    }
+    fn f_insert(&mut self, out: &mut Out, p: u64, id: u64) {
+        let r = self.sync.state().write_inflight_blocks().insert(PeerIndex::new(p as usize), self.nh(self.num(id), id));
+        out.count("fetch-other-insert");
+        out.op(&format!("finsert {p} {} {id}", self.num(id)), &format!("{r} total={}", self.f_total()));
+    }
+    fn f_rmpeer(&mut self, out: &mut Out, p: u64) {
+        let r = self.sync.state().write_inflight_blocks().remove_by_peer(PeerIndex::new(p as usize));
+        out.op(&format!("frmpeer {p}"), &format!("{r} total={}", self.f_total()));
+    }
+    fn f_mark_received(&mut self, id: u64) {
+        use ckb_shared::block_status::BlockStatus;
+        if !self.hdrs[id as usize].3 {
+            self.node.shared.insert_block_status(self.hash_of(id), BlockStatus::BLOCK_RECEIVED);
+        }
+    }
+    fn f_fetch(&mut self, out: &mut Out, p: u64, fetch_end: u64, ibd: bool) {
+        let (sv, rc) = self.f_statuses(out);
+        let ut = self.node.shared.get_unverified_tip().number();
+        let mytd = self.tds[self.main_tip as usize];
+        let pi = PeerIndex::new(p as usize);
+        let before = self.f_peer_set(p).unwrap_or_default();
+        let can_before = self.sync.state().read_inflight_blocks().peer_can_fetch_count(pi);
+        let total_before = self.f_total();
+        let f = ckb_sync::VerifBlockFetcher::new(Arc::clone(&self.sync), pi, if ibd { ckb_sync::IBDState::In } else { ckb_sync::IBDState::Out });
+        let got = f.fetch(fetch_end);
+        let after = self.f_peer_set(p);
+        let after_set = after.clone().unwrap_or_default();
+        let best = self.peers.get(&p).and_then(|st| st.0);
+        let lc_real = self.sync.state().peers().get_last_common_header(pi).map(|b| self.id_of(&b.hash()));
+        let lc_prev = self.peers.get(&p).and_then(|st| st.1);
+        // plain statements on the implementation's answer
+        match &got {
+            Some(chunks) => {
+                let flat: Vec<u64> = chunks.iter().flatten().map(|x| self.id_of(x)).collect();
+                let (bid, btd) = best.expect("fetch answered without a best known header");
+                let mut ok = btd > mytd && flat.len() <= can_before && chunks.iter().all(|c| !c.is_empty() && c.len() <= ckb_constant::sync::INIT_BLOCKS_IN_TRANSIT_PER_PEER);
+                let mut prev = 0;
+                for h in &flat {
+                    ok &= *h != u64::MAX && !self.hdrs[*h as usize].3 && !rc.contains(h) && self.is_anc(*h, bid)
+                        && self.num(*h) > prev && !before.contains(h) && after_set.contains(h);
+                    if *h != u64::MAX { prev = self.num(*h); }
+                }
+                // candidate finding (reported, counted, not failing): after the scan meets a stored block the code
+                // recomputes `end` without `fetch_end`, so headers above fetch_end (the assume-valid target) are requested
+                if flat.iter().any(|h| *h != u64::MAX && self.num(*h) > fetch_end) {
+                    out.count("fetch-beyond-fetch-end");
+                }
+                let want: BTreeSet<u64> = before.iter().copied().chain(flat.iter().copied()).collect();
+                if !ok || after_set != want || self.f_total() != total_before + flat.len() {
+                    out.oracle_fail("fetch-answer", &format!("fetch {p} end={fetch_end} ibd={ibd}: {flat:?} best={bid} can_fetch={can_before} before={before:?} after={after_set:?}"));
+                }
+                if flat.len() == can_before && can_before > 0 { out.count("fetch-filled-the-peer-window"); }
+                if flat.is_empty() { out.count("fetch-empty"); } else { out.count("fetch-some"); }
+            }
+            None => {
+                if after_set != before || self.f_total() != total_before {
+                    out.oracle_fail("fetch-none-changed-the-table", &format!("fetch {p}: before={before:?} after={after_set:?}"));
+                }
+                out.count("fetch-none");
+            }
+        }
+        // the peer's last common header afterwards: unchanged, or an ancestor of its best known header that we store
+        if lc_real != lc_prev {
+            let good = match (lc_real, best) {
+                (Some(l), Some((bid, _))) => self.is_anc(l, bid) && (self.hdrs[l as usize].3 || Some(l) == lc_prev),
+                _ => false,
+            };
+            if !good {
+                out.oracle_fail("fetch-last-common-not-common", &format!("fetch {p}: last common {lc_prev:?} -> {lc_real:?}, best {best:?}"));
+            }
+            out.count("fetch-moved-last-common");
+            if let Some(st) = self.peers.get_mut(&p) { st.1 = lc_real; }
+        }
+        self.peer_check(out, p, "fetch");
+        let r = match &got {
+            None => "none".to_string(),
+            Some(c) if c.is_empty() => "-".to_string(),
+            Some(c) => c.iter().map(|x| x.iter().map(|y| self.id_of(y).to_string()).collect::<Vec<_>>().join(",")).collect::<Vec<_>>().join(";"),
+        };
+        let lc = if self.sync.state().peers().get_flag(pi).is_none() { "nopeer".to_string() } else { self.show_nh(self.sync.state().peers().get_last_common_header(pi)) };
+        let infl = match after { Some(s) => show(s.into_iter()), None => "nosched".into() };
+        out.count("fetch");
+        out.op(&format!("fetch {p} {fetch_end} {} {ut} {mytd} {} {}", ibd as u8, show(sv.into_iter()), show(rc.into_iter())),
+            &format!("r={r} lc={lc} infl={infl} total={}", self.f_total()));
+    }
     fn queries(&mut self, out: &mut Out, rng: &mut Rng, leaves: &[u64], n: usize) {
         let total = self.hdrs.len() as u64;
         let pick = |rng: &mut Rng, me: &Com| -> u64 {
@@ -2044,7 +2160,22 @@ impl Com {
             }
         };
         for q in 0..n {
-            match rng.below(10) {
+            match rng.below(14) {
+                10..=11 => {
+                    let p = rng.below(4);
+                    let best_n = self.peers.get(&p).and_then(|st| st.0).map(|b| self.num(b.0)).unwrap_or(10);
+                    let fetch_end = match rng.below(5) { 0 => best_n.saturating_sub(rng.below(6)), 1 => rng.below(best_n + 3), _ => u64::MAX };
+                    self.f_fetch(out, p, fetch_end, rng.chance(1, 5));
+                }
+                12 => {
+                    // another peer already asked for a header-only block / a block is already received
+                    let id = pick(rng, self);
+                    if rng.chance(1, 3) { self.f_mark_received(id); out.count("fetch-marked-received"); } else { self.f_insert(out, 4 + rng.below(2), id); }
+                }
+                13 => {
+                    let p = if rng.chance(1, 2) { rng.below(4) } else { 4 + rng.below(2) };
+                    self.f_rmpeer(out, p);
+                }
                 0..=2 => {
                     let (a, b) = (pick(rng, self), pick(rng, self));
                     let (mut na, nb) = (self.num(a), self.num(b));
@@ -2153,8 +2284,11 @@ fn common_case(out: &mut Out, rng: &mut Rng, base: &std::path::Path, case_no: us
     for k in 0..3 {
         let from = match k { 0 => a_tip, 1 => b_tip, _ => c.walk(a_tip, rng.below(m)).unwrap() };
         let mut t = from;
-        for _ in 0..rng.range(1, 25) {
-            t = c.add(out, t, false, rng.below(4));
+        // one branch longer than a peer's initial window of 32 requests
+        let len = if k == 0 { rng.range(30, 44) } else { rng.range(1, 25) };
+        let bp = rng.below(4);
+        for _ in 0..len {
+            t = c.add(out, t, false, if k == 0 { bp } else { rng.below(4) });
         }
         leaves.push(t);
     }
